@@ -4,4 +4,5 @@ set -e
 cd /verif
 mkdir -p .build/bin .cache/go evidence replays
 scripts/build.sh all
+scripts/build_sched.sh all
 echo "setup ok"
